@@ -3,8 +3,15 @@ package stake
 // Shared fixtures of the stake-package harnesses (DESIGN §3: universe U).
 
 import (
+	"github.com/holiman/uint256"
+	cfg "github.com/rigochain/rigo-go/cmd/config"
+	ctrlertypes "github.com/rigochain/rigo-go/ctrlers/types"
 	"github.com/rigochain/rigo-go/types"
+	"github.com/rigochain/rigo-go/types/xerrors"
 	"github.com/rigochain/rigo-go/zzverif"
+	abcitypes "github.com/tendermint/tendermint/abci/types"
+	tmlog "github.com/tendermint/tendermint/libs/log"
+	tmproto "github.com/tendermint/tendermint/proto/tendermint/types"
 )
 
 // A-SUPPLY: a single power value is at most 2^55 so that power*100 and sums of
@@ -33,7 +40,145 @@ func zzPub(i int) []byte {
 }
 
 func zzPower(name string) int64 {
-	p := zzverif.NondetI64(name)
-	zzverif.Assume(p > 0 && p <= zzMaxPower)
-	return p
+	return zzverif.NondetI64In(name, 1, zzMaxPower)
 }
+
+// ---------------------------------------------------------------------------
+// governance parameters as a symbolic IGovHandler (assumption A-GOV)
+
+type zzGov struct {
+	maxValidatorCnt, lazyRewardBlocks, lazyApplyingBlocks     int64
+	minVotingPeriod, maxVotingPeriod                          int64
+	minSelfStakeRatio, maxUpdatableRatio, maxIndividualRatio  int64
+	slashRatio, signedBlocksWindow, minSignedBlocks           int64
+	minValidatorStake, minDelegatorStake, rewardPerPower, gasPrice *uint256.Int
+	minTrxGas                                                 uint64
+}
+
+func zzNewGov() *zzGov {
+	g := &zzGov{}
+	g.maxValidatorCnt = zzverif.NondetI64In("gov.maxValidatorCnt", 1, 100)
+	g.lazyRewardBlocks = zzverif.NondetI64In("gov.lazyRewardBlocks", 0, 1<<40)
+	g.lazyApplyingBlocks = 10
+	g.minVotingPeriod, g.maxVotingPeriod = 10, 10
+	g.minSelfStakeRatio = zzverif.NondetI64In("gov.minSelfStakeRatio", 0, 100)
+	g.maxUpdatableRatio, g.maxIndividualRatio = 33, 33
+	g.slashRatio = zzverif.NondetI64In("gov.slashRatio", 0, 100)
+	g.signedBlocksWindow = zzverif.NondetI64In("gov.signedBlocksWindow", 0, 1<<31-1)
+	g.minSignedBlocks = zzverif.NondetI64In("gov.minSignedBlocks", 0, 1<<31-1)
+	// stakes are whole powers: minValidatorStake = p * 10^18
+	mvp := zzverif.NondetI64In("gov.minValidatorPower", 1, zzMaxPower)
+	g.minValidatorStake = ctrlertypes.PowerToAmount(mvp)
+	mdp := zzverif.NondetI64In("gov.minDelegatorPower", 0, zzMaxPower)
+	g.minDelegatorStake = ctrlertypes.PowerToAmount(mdp)
+	g.rewardPerPower = zzverif.NondetU256Below("gov.rewardPerPower", new(uint256.Int).Lsh(uint256.NewInt(1), 64))
+	g.gasPrice = zzverif.NondetU256Below("gov.gasPrice", new(uint256.Int).Lsh(uint256.NewInt(1), 64))
+	g.minTrxGas = 10
+	return g
+}
+
+func (g *zzGov) Version() int64                  { return 1 }
+func (g *zzGov) MaxValidatorCnt() int64          { return g.maxValidatorCnt }
+func (g *zzGov) MinValidatorStake() *uint256.Int { return g.minValidatorStake }
+func (g *zzGov) MinDelegatorStake() *uint256.Int { return g.minDelegatorStake }
+func (g *zzGov) RewardPerPower() *uint256.Int    { return g.rewardPerPower }
+func (g *zzGov) LazyRewardBlocks() int64         { return g.lazyRewardBlocks }
+func (g *zzGov) LazyApplyingBlocks() int64       { return g.lazyApplyingBlocks }
+func (g *zzGov) GasPrice() *uint256.Int          { return g.gasPrice }
+func (g *zzGov) MinTrxGas() uint64               { return g.minTrxGas }
+func (g *zzGov) MinTrxFee() *uint256.Int {
+	return new(uint256.Int).Mul(uint256.NewInt(g.minTrxGas), g.gasPrice)
+}
+func (g *zzGov) MaxTrxGas() uint64              { return 1 << 62 }
+func (g *zzGov) MaxTrxFee() *uint256.Int        { return uint256.NewInt(1 << 62) }
+func (g *zzGov) MaxBlockGas() uint64            { return 1 << 62 }
+func (g *zzGov) MinVotingPeriodBlocks() int64   { return g.minVotingPeriod }
+func (g *zzGov) MaxVotingPeriodBlocks() int64   { return g.maxVotingPeriod }
+func (g *zzGov) MinSelfStakeRatio() int64       { return g.minSelfStakeRatio }
+func (g *zzGov) MaxUpdatableStakeRatio() int64  { return g.maxUpdatableRatio }
+func (g *zzGov) MaxIndividualStakeRatio() int64 { return g.maxIndividualRatio }
+func (g *zzGov) SlashRatio() int64              { return g.slashRatio }
+func (g *zzGov) SignedBlocksWindow() int64      { return g.signedBlocksWindow }
+func (g *zzGov) MinSignedBlocks() int64         { return g.minSignedBlocks }
+
+var _ ctrlertypes.IGovHandler = (*zzGov)(nil)
+
+// ---------------------------------------------------------------------------
+// a plain account book as IAccountHandler (the account controller itself is
+// exercised by the node-level harnesses)
+
+type zzAccts struct {
+	m map[string]*ctrlertypes.Account
+}
+
+func zzNewAccts(n int) *zzAccts {
+	a := &zzAccts{m: map[string]*ctrlertypes.Account{}}
+	for i := 0; i < n; i++ {
+		acct := ctrlertypes.NewAccount(zzAddr(i))
+		bal := zzverif.NondetU256Below("balance", zzMaxBalance())
+		acct.SetBalance(bal)
+		a.m[string(zzAddr(i))] = acct
+	}
+	return a
+}
+
+// A-SUPPLY for balances: < 2^100 (about 1.2e12 whole coins)
+func zzMaxBalance() *uint256.Int { return new(uint256.Int).Lsh(uint256.NewInt(1), 100) }
+
+func (a *zzAccts) FindOrNewAccount(addr types.Address, exec bool) *ctrlertypes.Account {
+	if acct := a.m[string(addr)]; acct != nil {
+		return acct
+	}
+	acct := ctrlertypes.NewAccount(addr)
+	a.m[string(addr)] = acct
+	return acct
+}
+func (a *zzAccts) FindAccount(addr types.Address, exec bool) *ctrlertypes.Account {
+	return a.m[string(addr)]
+}
+func (a *zzAccts) Transfer(from, to types.Address, amt *uint256.Int, exec bool) xerrors.XError {
+	f, t := a.FindAccount(from, exec), a.FindOrNewAccount(to, exec)
+	if f == nil {
+		return xerrors.ErrNotFoundAccount
+	}
+	if xerr := f.SubBalance(amt); xerr != nil {
+		return xerr
+	}
+	return t.AddBalance(amt)
+}
+func (a *zzAccts) Reward(to types.Address, amt *uint256.Int, exec bool) xerrors.XError {
+	acct := a.FindAccount(to, exec)
+	if acct == nil {
+		return xerrors.ErrNotFoundAccount
+	}
+	return acct.AddBalance(amt)
+}
+func (a *zzAccts) ImmutableAcctCtrlerAt(int64) (ctrlertypes.IAccountHandler, xerrors.XError) {
+	return a, nil
+}
+func (a *zzAccts) SetAccountCommittable(*ctrlertypes.Account, bool) xerrors.XError { return nil }
+
+var _ ctrlertypes.IAccountHandler = (*zzAccts)(nil)
+
+// ---------------------------------------------------------------------------
+
+func zzNewCtrler(dir string, gov ctrlertypes.IGovHandler) *StakeCtrler {
+	conf := cfg.DefaultConfig()
+	conf.DBPath = dir
+	c, xerr := NewStakeCtrler(conf, gov, tmlog.NewNopLogger())
+	if xerr != nil {
+		panic(xerr)
+	}
+	return c
+}
+
+func zzBlockCtx(height int64, gov ctrlertypes.IGovHandler, accts ctrlertypes.IAccountHandler, sc *StakeCtrler, votes []abcitypes.VoteInfo, evs []abcitypes.Evidence) *ctrlertypes.BlockContext {
+	req := abcitypes.RequestBeginBlock{
+		Header:              tmproto.Header{Height: height},
+		LastCommitInfo:      abcitypes.LastCommitInfo{Votes: votes},
+		ByzantineValidators: evs,
+	}
+	return ctrlertypes.NewBlockContext(req, gov, accts, sc)
+}
+
+func zzTenTo18() *uint256.Int { return uint256.NewInt(1000000000000000000) }
